@@ -227,17 +227,7 @@ class Array:
             # windows will fail
             fd = open(file=self._datapath, mode=filemode)
             try:
-                d = self._arrayinfo
-                dtypedescr = arrayinfotodtype(d)
-                if product(d['shape']) == 0:  # empty file/array
-                    memmap = np.zeros(d['shape'], dtype=dtypedescr,
-                                      order=d['arrayorder'])
-                    # in-memory stand-in should respect access mode
-                    memmap.flags.writeable = (memmapmode == 'r+')
-                else:
-                    memmap = np.memmap(filename=fd, mode=memmapmode,
-                                       shape=d['shape'], dtype=dtypedescr,
-                                       order=d['arrayorder'])
+                memmap = self._mapfile(fd, memmapmode)
             except Exception:
                 fd.close()
                 raise
@@ -248,6 +238,38 @@ class Array:
                 yield self._memmap, self._valuesfd
             finally:
                 self._close_array()
+
+    def _mapfile(self, fd, memmapmode):
+        d = self._arrayinfo
+        dtypedescr = arrayinfotodtype(d)
+        if product(d['shape']) == 0:  # empty file/array
+            memmap = np.zeros(d['shape'], dtype=dtypedescr,
+                              order=d['arrayorder'])
+            # in-memory stand-in should respect access mode
+            memmap.flags.writeable = (memmapmode == 'r+')
+        else:
+            memmap = np.memmap(filename=fd, mode=memmapmode,
+                               shape=d['shape'], dtype=dtypedescr,
+                               order=d['arrayorder'])
+        return memmap
+
+    def _remap_array(self):
+        # A memory map that is kept open (open_array context, iterchunks
+        # generator) has to follow a change of the length of the array,
+        # otherwise reads within the context see the old array (or, after
+        # truncation, memory beyond the end of the file).
+        if self._memmap is None:
+            return
+        writeable = self._memmap.flags.writeable
+        if self._valuesfd.closed:
+            self._valuesfd = open(file=self._datapath,
+                                  mode=self._valuesfd.mode)
+        self._valuesfd.flush()
+        memmapmode = 'r+' if '+' in self._valuesfd.mode else 'r'
+        memmap = self._mapfile(self._valuesfd, memmapmode)
+        memmap.flags.writeable = writeable
+        # the old map is not closed explicitly, it may still be in use
+        self._memmap = memmap
 
     def _close_array(self):
         self._nusers -= 1
@@ -386,6 +408,8 @@ class Array:
         self._shape = tuple(newshape)
         self._size = product(self._shape)
         self._update_arrayinfo(shape=self._shape)
+        if lenincrease != 0:
+            self._remap_array()
         self._update_readmetxt()
 
     def _update_readmetxt(self):
